@@ -8,6 +8,8 @@ L4  gate / writer / reader / compiler share the layout helpers; fixed-width sett
 L5  no trapping arithmetic on literal payloads in the gate
 L6  every encoding call is dominated by a positive gate answer on the same literal
 L7  the reader decodes as many array elements as the type says (not as the bit slice happens to hold)
+L8  the literal entry point returns Ok only when the token stream is exhausted and no error was recorded
+L9  a parser function that consumed an opening bracket consumes the matching closing bracket on every path to Ok
 """
 from .. import mir
 from ..core import AnchorMissing, Finding, RuleResult
@@ -546,4 +548,259 @@ def rule_l7(ctx):
 
 
 def run(ctx):
-    return ctx.run_rules([rule_l1, rule_l1b, rule_l2, rule_l3, rule_l4, rule_l5, rule_l6, rule_l7])
+    return ctx.run_rules([rule_l1, rule_l1b, rule_l2, rule_l3, rule_l4, rule_l5, rule_l6, rule_l7, rule_l8, rule_l9])
+
+
+# ---- the literal parser ------------------------------------------------------------------------------
+PAIRS = {"LeftParen": "RightParen", "LeftBracket": "RightBracket", "LeftBrace": "RightBrace"}
+IS_SOME = {"std::option::Option::<T>::is_some": 0}
+
+
+def _ok_blocks(body):
+    return [b for b, blk in enumerate(body.blocks) if not blk["cleanup"] for st in blk["stmts"]
+            if st["k"] == "assign" and st["place"]["l"] == 0 and not st["place"]["p"] and st["rv"]["k"] == "aggregate"
+            and st["rv"].get("variant") == "Ok" and st["rv"].get("adt") == "std::result::Result"]
+
+
+def _hit_edges(body, cb):
+    """Blocks entered exactly when the Option returned by the call in block cb is Some."""
+    out = set()
+    for b in range(body.n):
+        t = body.term(b)
+        if not t or t["k"] != "switch":
+            continue
+        info = body.switch_info(b)
+        if info and info[0] and info[0][0][:2] == ("call", cb) and not info[0][1] and info[2].startswith("std::option::Option"):
+            for v, x in t["targets"]:
+                if info[1].get(v) == "Some":
+                    out.add(x)
+            listed = {v for v, _ in t["targets"]}
+            if any(n == "Some" and v not in listed for v, n in info[1].items()):
+                out.add(t["otherwise"])
+        elif t["discr"]["k"] in ("copy", "move") and body.locals[t["discr"]["place"]["l"]]["ty"] == "bool":
+            roots = body.trace(t["discr"]["place"], through=IS_SOME)
+            if roots and all(r[:2] == ("call", cb) for (r, p) in roots):
+                ds = [d for d in body.defs().get(t["discr"]["place"]["l"], []) if d[0] == "call"]
+                if len(ds) == 1 and "is_some" in mir.last_seg(mir.callee(body.term(ds[0][1])) or ""):
+                    if all(v == 0 for v, _ in t["targets"]):
+                        out.add(t["otherwise"])
+    return out
+
+
+def bracket_sites(ctx, E, body):
+    """(opener variant, entry block, line) and {closer variant: blocks} of one parser function."""
+    opens, closes = [], {}
+    for b, t in body.calls():
+        seg = mir.last_seg(mir.callee(t) or "")
+        if seg not in ("expect", "next_matches"):
+            continue
+        key = E.const_key(body, t)
+        if not key or not key.startswith("token::TokenEnum::"):
+            continue
+        v = key.rsplit("::", 1)[1]
+        if seg == "expect":
+            # the Err edge leaves the function through `?`; the call block stands for the consumption
+            if v in PAIRS:
+                opens.append((v, t["target"], t["sp"][1]))
+            if v in PAIRS.values():
+                closes.setdefault(v, set()).add(b)
+        else:
+            hits = _hit_edges(body, b)
+            if v in PAIRS:
+                for x in hits:
+                    opens.append((v, x, t["sp"][1]))
+            if v in PAIRS.values():
+                closes.setdefault(v, set()).update(hits)
+    # a closing token that was peeked and is then consumed by the very next parser call (advance / next_matches)
+    for b, t in body.calls():
+        if mir.last_seg(mir.callee(t) or "") != "peek" or (mir.callee(t) or "").startswith("std::"):
+            continue
+        key = E.const_key(body, t)
+        if not key or key.rsplit("::", 1)[1] not in PAIRS.values():
+            continue
+        v = key.rsplit("::", 1)[1]
+        for sb in range(body.n):
+            st = body.term(sb)
+            if st and st["k"] == "switch" and st["discr"]["k"] in ("copy", "move") and all(x == 0 for x, _ in st["targets"]) and \
+                    any(r[:2] == ("call", b) for (r, p) in body.trace(st["discr"]["place"], through={})):
+                cur, hops = st["otherwise"], 0
+                while hops < 12:
+                    tt = body.term(cur)
+                    if tt and tt["k"] == "call":
+                        seg = mir.last_seg(mir.callee(tt) or "")
+                        if seg == "advance" or (seg in ("next_matches", "expect") and E.const_key(body, tt) == key):
+                            closes.setdefault(v, set()).add(cur)
+                            break
+                        if (mir.callee(tt) or "") in E.scope:
+                            break
+                    nx = body.succs(cur)
+                    if len(nx) != 1:
+                        break
+                    cur, hops = nx[0], hops + 1
+    for b in range(body.n):
+        info = body.switch_info(b)
+        if info and info[2] == "token::TokenEnum" and info[0] and info[0][0][0] == "arg":
+            t = body.term(b)
+            for v, x in t["targets"]:
+                if info[1].get(v) in PAIRS:
+                    opens.append((info[1][v], x, t["sp"][1]))
+    return opens, closes
+
+
+def _variant_path(body, cb, start, goals, blocked=()):
+    """Block path start -> goal that is consistent about the variant (Ok / Err) of the Result returned by the call in block cb:
+    the edges of `is_ok()` / `is_err()` on it and of matches on its discriminant must agree along the path."""
+    from collections import deque
+    know = {}       # block -> {successor: variant}
+    for b in range(body.n):
+        t = body.term(b)
+        if not t or t["k"] != "switch":
+            continue
+        info = body.switch_info(b)
+        if info and info[0] and info[0][0][:2] == ("call", cb) and not info[0][1]:
+            m = {}
+            listed = {v for v, _ in t["targets"]}
+            for v, x in t["targets"]:
+                m.setdefault(x, set()).add(info[1].get(v))
+            m.setdefault(t["otherwise"], set()).update(n for v, n in info[1].items() if v not in listed)
+            know[b] = m
+        elif t["discr"]["k"] in ("copy", "move") and body.locals[t["discr"]["place"]["l"]]["ty"] == "bool":
+            ds = [d for d in body.defs().get(t["discr"]["place"]["l"], []) if d[0] == "call"]
+            if len(ds) == 1:
+                c = body.term(ds[0][1])
+                seg = mir.last_seg(mir.callee(c) or "")
+                if seg in ("is_ok", "is_err") and c["args"] and c["args"][0]["k"] in ("copy", "move") and \
+                        all(r[:2] == ("call", cb) and not p for (r, p) in body.trace(c["args"][0]["place"], through={})) and all(v == 0 for v, _ in t["targets"]):
+                    yes, no = ("Ok", "Err") if seg == "is_ok" else ("Err", "Ok")
+                    know[b] = {t["otherwise"]: {yes}}
+                    for v, x in t["targets"]:
+                        know[b].setdefault(x, set()).add(no)
+    goals, blocked = set(goals), set(blocked)
+    if start in blocked:
+        return None
+    prev = {(start, None): None}
+    dq = deque([(start, None)])
+    while dq:
+        b, k = dq.popleft()
+        if b in goals:
+            out, cur = [], (b, k)
+            while cur is not None:
+                out.append(cur[0])
+                cur = prev[cur]
+            return out[::-1]
+        for s in body.succs(b):
+            if s in blocked:
+                continue
+            k2 = k
+            if b in know:
+                vs = know[b].get(s, set())
+                if k is not None and k not in vs:
+                    continue
+                if k is None and len(vs) == 1:
+                    k2 = next(iter(vs))
+            if (s, k2) not in prev:
+                prev[(s, k2)] = (b, k)
+                dq.append((s, k2))
+    return None
+
+
+def rule_l8(ctx):
+    """The text given to Literal::parse is a literal only if nothing follows it."""
+    res = RuleResult("L8", "the literal entry point returns Ok only at the end of the token stream and without recorded errors")
+    fs = [f for f in ctx.find_fns("parse_literal", None, "parse.rs") if "scan::Tokens" in f["id"]]
+    if len(fs) != 1:
+        raise AnchorMissing("L8: Tokens::parse_literal not found")
+    body = ctx.body(fs[0]["id"])
+    inner = [b for b, t in body.calls() if (mir.callee(t) or "").endswith("Parser::parse_literal")]
+    oks = _ok_blocks(body)
+    if len(inner) != 1:
+        raise AnchorMissing("L8: expected one call of Parser::parse_literal in Tokens::parse_literal")
+    P = inner[0]
+    # the result handed on as it is (`.map_err(..)` keeps an Ok)
+    for b, t in body.calls():
+        if t["dest"]["l"] == 0 and mir.last_seg(mir.callee(t) or "") in ("map_err", "or_else") and t["args"] and t["args"][0]["k"] in ("copy", "move") and \
+                any(r[:2] == ("call", P) for (r, p) in body.trace(t["args"][0]["place"], through={})):
+            oks.append(b)
+    for b, blk in enumerate(body.blocks):
+        for st in blk["stmts"]:
+            if st["k"] == "assign" and st["place"]["l"] == 0 and not st["place"]["p"] and st["rv"]["k"] == "use" and st["rv"]["op"]["k"] in ("copy", "move") and \
+                    any(r[:2] == ("call", P) and not p for (r, p) in body.trace(st["rv"]["op"]["place"], through={})):
+                oks.append(b)
+    if not oks:
+        raise AnchorMissing("L8: no Ok result found in Tokens::parse_literal")
+    probes = []
+    for b, t in body.calls():
+        if b == P or not body.dominates(P, b) or not t["args"] or t["args"][0]["k"] not in ("copy", "move"):
+            continue
+        if "Peekable" in t["args"][0]["place"]["ty"] and mir.last_seg(mir.callee(t) or t["func"].get("declared") or "") in ("next", "peek"):
+            probes.append(b)
+    w = _variant_path(body, P, body.term(P)["target"], oks, blocked=probes)
+    if w:
+        res.bad(Finding("L8", fs[0]["id"], "tokens after the literal are never looked at",
+                        "a path from Parser::parse_literal to the Ok result asks the token stream for nothing more: `1 2` is accepted as the literal 1",
+                        body.term(P)["sp"], witness=["line %d" % body.term(x)["sp"][1] for x in w if body.term(x)][-10:]))
+        return res
+    res.ok({"probes": ["line %d" % body.term(b)["sp"][1] for b in probes], "verdict": "every path to Ok asks for the next token"})
+    pushes = {b for b, t in body.calls() if mir.last_seg(mir.callee(t) or "") in ("push_error", "push_error_for_next")
+              or (mir.last_seg(mir.callee(t) or "") == "push" and "ParseError" in t["args"][0]["place"]["ty"])}
+    empties = [(b, t) for b, t in body.calls() if mir.last_seg(mir.callee(t) or "") == "is_empty" and "ParseError" in t["args"][0]["place"]["ty"]]
+    for pb in probes:
+        for x in _hit_edges(body, pb):
+            w = body.path(x, oks, blocked=pushes)
+            if w:
+                res.bad(Finding("L8", fs[0]["id"], "Ok although a token follows the literal",
+                                "on the edge on which another token follows, Ok is reached without recording an error",
+                                body.term(pb)["sp"], witness=["line %d" % body.term(y)["sp"][1] for y in w if body.term(y)][-10:]))
+                continue
+            if body.path(x, oks):
+                # an error was pushed: Ok must then be guarded by errors.is_empty() asked after the push
+                from . import C02
+                good = False
+                for eb, et in empties:
+                    true_edges = set()
+                    for sb in range(body.n):
+                        st = body.term(sb)
+                        if st and st["k"] == "switch" and st["discr"]["k"] in ("copy", "move") and \
+                                any(r[:2] == ("call", eb) for (r, p) in body.trace(st["discr"]["place"], through={})):
+                            if all(v == 0 for v, _ in st["targets"]):
+                                true_edges.add((sb, st["otherwise"]))
+                    if true_edges and all(C02._dominated_by_edges(body, true_edges, ob) for ob in oks) and any(eb in body.reachable([p]) for p in pushes):
+                        good = True
+                if good:
+                    res.ok({"edge": "a token follows (line %d)" % body.term(pb)["sp"][1], "verdict": "an error is recorded and Ok is only returned when errors.is_empty()"})
+                else:
+                    res.bad(Finding("L8", fs[0]["id"], "recorded error does not prevent Ok",
+                                    "a token follows the literal and an error is pushed, but Ok is not guarded by errors.is_empty() afterwards", body.term(pb)["sp"]))
+            else:
+                res.ok({"edge": "a token follows (line %d)" % body.term(pb)["sp"][1], "verdict": "Ok unreachable"})
+    return res
+
+
+def rule_l9(ctx):
+    """Display prints nested literals with both brackets; the parser has to consume both on every successful path."""
+    from . import C07
+    res = RuleResult("L9", "a parser function that consumed an opening bracket returns Ok only after consuming the matching closing one")
+    E = C07.get_eof(ctx)
+    n = 0
+    for f in C07.front_fns(ctx, ("parse.rs",)):
+        if f["kind"] == "closure":
+            continue
+        body = ctx.body(f["id"])
+        oks = _ok_blocks(body)
+        if not oks:
+            continue
+        opens, closes = bracket_sites(ctx, E, body)
+        for v, x, line in opens:
+            n += 1
+            w = body.path(x, oks, blocked=closes.get(PAIRS[v], ()))
+            if w:
+                res.bad(Finding("L9", f["id"], "%s opened at line %d is not closed on a path to Ok" % (v, line),
+                                "after TokenEnum::%s was consumed a path reaches the Ok result without consuming TokenEnum::%s: the closing token is left in the stream "
+                                "(`()` could not be nested in a literal or written in a program)" % (v, PAIRS[v]),
+                                body.term(w[0])["sp"] if body.term(w[0]) else f["sp"],
+                                witness=["line %d" % body.term(y)["sp"][1] for y in w if body.term(y)][-12:]))
+            else:
+                res.ok({"function": f["id"], "opened": "%s at line %d" % (v, line), "verdict": "every path to Ok consumes %s" % PAIRS[v]})
+    if n < 18 and not res.findings:
+        raise AnchorMissing("L9: only %d bracket openers found in parse.rs (23 on the pinned tree)" % n)
+    return res
